@@ -647,6 +647,33 @@ func c17History(r *ev.Run, m *dyn.Model, p *prng.R, batch, hi int) {
 			}
 		}
 	}()
+	// monitoring peers that go away: before the load starts or in the middle of it. The
+	// monitors that stay must not miss a transaction because of them.
+	if hi%2 == 1 {
+		nLeave := 1 + p.Intn(3)
+		for i := 0; i < nLeave; i++ {
+			pe, err := peer.Dial(srv.Path)
+			if err != nil {
+				break
+			}
+			req := &monReq{ID: fmt.Sprintf("%q", fmt.Sprintf("leaver%d", i)), Method: methods[p.Intn(3)], Tables: map[string]*monTable{}}
+			for _, tn := range allTables {
+				req.Tables[tn] = &monTable{}
+			}
+			_, _ = req.register(pe, s.Name)
+			if p.Bool() {
+				pe.Close()
+			} else {
+				d := time.Duration(5+p.Intn(60)) * time.Millisecond
+				go func() {
+					time.Sleep(d)
+					pe.Close()
+				}()
+			}
+		}
+		time.Sleep(10 * time.Millisecond)
+		r.Count("histories_with_departing_monitoring_peers", 1)
+	}
 	// clients
 	clients := make([]c17txClient, nClients)
 	var libs []client.Client
